@@ -466,6 +466,7 @@ def run(tier, seed):
                        "wrapint, used only after TLC validated them against the defining relation",
                        "wrapped_interval_domain (program level) is checked by the ProgSound based checks, not here",
                        "widening is only checked to cover both arguments; termination of widening sequences is not checked"]
+    bv_programs(ck, tier)
     return ck.finish()
 
 
@@ -480,3 +481,34 @@ def replay(path):
     ck.cov["evaluations"] = sum(ta.per_op.values())
     ck.cov["distinct_nontrivial"] = len(ta.nontrivial)
     return ck.finish()
+
+
+def bv_programs(ck, tier):
+    """second half of C13: programs under machine-integer semantics for the wrapped-interval DOMAIN
+    (spec/ProgSoundBV.tla explores every execution with wrap-around arithmetic)"""
+    import bvgen
+    from checks import progsound
+    build("prog_runner")
+    n = 120 if tier == "quick" else 2500
+    done = k = 0
+    while done < n:
+        m = min(400, n - done)
+        ps = []
+        for i in range(m):
+            w = ck.rng.choice([3, 3, 4])
+            p = bvgen.program(ck.rng, 700000 + done + i, w)
+            p["runs"] = [{"dom": "wrapped_int", "wd": ck.rng.choice([0, 1, 2]), "desc": ck.rng.choice([0, 1, 2]), "th": ck.rng.choice([0, 0, 5]), "live": 0}
+                         for _ in range(2)]
+            ps.append(p)
+        viols, merged, _ = progsound.explore(ck, "bv%d" % k, ps, spec="ProgSoundBV")
+        ck.cov["bv_program_runs"] = ck.cov.get("bv_program_runs", 0) + sum(1 for q in merged for r in q["runs"] if r["err"] == 0)
+        for v in viols:
+            for run_, dom in (v["bad_invariant"] + v["bad_verdict"])[:2]:
+                cfg = v["program"]["runs"][run_ - 1]
+                prog = dict(v["program"])
+                prog["runs"] = [cfg]
+                ck.violation("C13 (wrapped-interval domain, %d-bit machine semantics): %s at block b%d idx %d; concrete state %s reached by %s" %
+                             (v["program"]["bv"], v["violated"], v["block"], v["idx"], v["state"], v["execution"][-10:]),
+                             {"program": prog, "execution": v["execution"], "state": v["state"], "kind": "bv-program"})
+        done += m
+        k += 1
